@@ -146,6 +146,69 @@ def case_linear(**p):
   return case
 
 
+def case_linear_projected(**p):
+  """End to end: raw weights -> the layer's own kernel constraint (real projection graph) -> the layer's function.  The
+  consequences are asked of that composition, with no assumption on the raw weights."""
+  import tensorflow as tf
+  from tensorflow_lattice.python import linear_layer as LL, linear_lib
+  case = Case(PROP, p['name'], {k: v for k, v in p.items() if k != 'name'})
+  case.encoded(LL.Linear.call, LL.LinearConstraints.__call__, linear_lib.project)
+  layer = _layer(p)
+  n, units = len(p['mono']), p['units']
+  layer.build(tf.TensorShape([None, n] if units == 1 else [None, units, n]))
+  con = layer.kernel.constraint
+  trc = Traced(lambda w: con(w), [tf.TensorSpec([n, units], tf.float32)], name='LinearConstraints')
+  shp = [2, n] if units == 1 else [2, units, n]
+  tr = Traced(lambda x: layer(x), [tf.TensorSpec(shp, tf.float32)], name='Linear.call')
+  sym.new_ctx()
+  W = sym.symbolic('w', (n, units))
+  (K,) = trc.sym_run(W)
+  x = sym.symbolic('x', tuple(shp))
+  y = sym.symbolic('y', tuple(shp))
+  vv = {layer.kernel.ref(): K}
+  if p.get('bias', True):
+    vv[layer.bias.ref()] = sym.symbolic('b', () if units == 1 else (units,))
+  (out,) = tr.sym_run(x, var_values=vv)
+  (out2,) = tr.sym_run(y, var_values=vv)
+  case.meta.update(ops=dict(trc.ops_seen, **tr.ops_seen))
+  X, Y = x.reshape(2, -1, n), y.reshape(2, -1, n)
+  o, o2 = out.reshape(2, -1), out2.reshape(2, -1)
+  tmo = p.get('timeout', 90)
+
+  def rp(m, what, d, k):
+    wn = core.model_np(m, W)
+    kn = np.asarray(trc.tf_run(wn)[0], dtype=np.float64)
+    vvn = {layer.kernel.ref(): kn}
+    if p.get('bias', True):
+      vvn[layer.bias.ref()] = core.model_np(m, vv[layer.bias.ref()])
+    a = np.asarray(tr.tf_run(core.model_np(m, x), var_values=vvn)[0], dtype=np.float64).reshape(2, -1)
+    b_ = np.asarray(tr.tf_run(core.model_np(m, y), var_values=vvn)[0], dtype=np.float64).reshape(2, -1)
+    gap = np.abs(a[1] - a[0]) - np.abs(b_[1] - b_[0])
+    return dict(reproduced=bool(np.min(gap) < -1e-4 * max(1.0, float(np.max(np.abs(kn))))),
+                detail=dict(raw_weights=wn.tolist(), projected=kn.tolist(), dominant_change=(a[1] - a[0]).tolist(), weak_change=(b_[1] - b_[0]).tolist()))
+  for (d, k) in p.get('rdom', []):
+    rel = []
+    for u in range(X.shape[1]):
+      for j in range(n):
+        rel += ([X[0, u, j] == Fraction(p['imin'][d]), X[1, u, j] == Fraction(p['imax'][d])] if j == d else [X[1, u, j] == X[0, u, j]])
+        rel += ([Y[0, u, j] == Fraction(p['imin'][k]), Y[1, u, j] == Fraction(p['imax'][k])] if j == k else [Y[1, u, j] == Y[0, u, j]])
+    bad = [sym.s_cmp('lt', sym.s_abs(sym.s_sub(o[1, u], o[0, u])), sym.s_abs(sym.s_sub(o2[1, u], o2[0, u]))) for u in range(units)]
+    case.solve('projected-weights-give-dominant-range-at-least-weak-range[%d,%d]' % (d, k), core.any_of(bad), assumptions=rel,
+               witness=dict(w=W, x=x, y=y), timeout=tmo, sig=dict(query='rdom-projected'), inline_replay=lambda m, d=d, k=k: rp(m, 'rdom', d, k))
+  for (d, k) in p.get('mdom', []):
+    rel = []
+    for u in range(X.shape[1]):
+      for j in range(n):
+        rel.append(X[1, u, j] == X[0, u, j] + (1 if j == d else 0))
+        rel.append(Y[0, u, j] == X[0, u, j])
+        rel.append(Y[1, u, j] == X[0, u, j] + (1 if j == k else 0))
+    bad = [sym.s_cmp('lt', sym.s_abs(sym.s_sub(o[1, u], o[0, u])), sym.s_abs(sym.s_sub(o2[1, u], o2[0, u]))) for u in range(units)]
+    case.solve('projected-weights-give-dominant-step-at-least-weak-step[%d,%d]' % (d, k), core.any_of(bad), assumptions=rel,
+               witness=dict(w=W, x=x, y=y), timeout=tmo, sig=dict(query='mdom-projected'), inline_replay=lambda m, d=d, k=k: rp(m, 'mdom', d, k))
+  case.solve('twin:projection-changes-something', core.neq_arrays(K, W), expect='sat', kind='twin', timeout=30)
+  return case
+
+
 def _dom_replay(m, tr, x, y, vv, strict=False, absolute=False):
   vvn = {k: core.model_np(m, v) for k, v in vv.items()}
   o1 = np.asarray(tr.tf_run(core.model_np(m, x), var_values=vvn)[0]).reshape(2, -1)
@@ -228,6 +291,17 @@ def cases(tier, seed):
   add(mono=[-1, -1], units=1, rdom=[[1, 0]], imin=[0.0, 0.5], imax=[1.0, 0.75])
   add(mono=[1, 1, 1], units=2, norm=1, bias=False)
   add(mono=[1, 1], units=1, norm=1, bias=False, imin=[0.0, None], imax=[1.0, None])
+  # raw weights -> the layer's own constraint -> the layer (several dominances sharing an input, ranges other than 1)
+  for q in (dict(mono=[1, 1, 1], units=1, rdom=[[0, 1], [0, 2]], imin=[0.0, 0.0, -1.0], imax=[3.0, 1.0, 1.0]),
+            dict(mono=[-1, -1, -1], units=2, rdom=[[0, 2], [1, 2]], imin=[0.0, 0.0, 0.0], imax=[1.0, 2.0, 0.5], bias=False),
+            dict(mono=[1, 1, 1], units=1, rdom=[[0, 1], [1, 2]], imin=[0.0, 1.0, 0.0], imax=[2.0, 4.0, 0.5]),
+            dict(mono=[1, 1, 0], units=2, rdom=[[0, 1]], imin=[0.0, -1.0, None], imax=[2.0, 1.0, None]),
+            dict(mono=[1, 1, 1], units=1, mdom=[[0, 1], [0, 2]])):
+    n_ = len(q['mono'])
+    q.setdefault('imin', [None] * n_)
+    q.setdefault('imax', [None] * n_)
+    nm = 'linproj-m%s-u%d-min%s-max%s-md%s-rd%s' % (''.join(str(m) for m in q['mono']), q['units'], q['imin'], q['imax'], q.get('mdom', []), q.get('rdom', []))
+    out.append(dict(name=nm, fn='case_linear_projected', params=dict(q, name=nm), cap=600))
   if tier == 'thorough':
     add(mono=[1, -1, 0, 1, 0], units=3, imin=[0.0, None, -1.0, None, None], imax=[1.0, 2.0, None, None, None])
     add(mono=[1, 1, 1, 1, 1], units=3, norm=1, bias=False)
